@@ -90,13 +90,25 @@ class IntEnv:
         self.lo = {}
         self.hi = {}
         self.fresh = 0
+        self.forms = {}   # normalised multi-symbol term part -> (lo, hi): relational facts
 
     def copy(self):
         e = IntEnv()
         e.lo = dict(self.lo)
         e.hi = dict(self.hi)
         e.fresh = self.fresh
+        e.forms = dict(self.forms)
         return e
+
+    @staticmethod
+    def _norm(x):
+        """x = sgn * T + c with T the term part normalised to a positive leading coefficient"""
+        items = tuple(sorted(x.terms.items()))
+        if not items:
+            return None, 1, x.c
+        sgn = 1 if items[0][1] > 0 else -1
+        key = tuple((s, k * sgn) for s, k in items)
+        return key, sgn, x.c
 
     def declare(self, name, lo=-INF, hi=INF):
         self.lo[name] = lo
@@ -121,6 +133,15 @@ class IntEnv:
             else:
                 lo += k * shi
                 hi += k * slo
+        if len(x.terms) >= 2 and self.forms:
+            key, sgn, c = self._norm(x)
+            fb = self.forms.get(key)
+            if fb is not None:
+                flo, fhi = fb
+                if sgn > 0:
+                    lo, hi = max(lo, flo + c), min(hi, fhi + c)
+                else:
+                    lo, hi = max(lo, -fhi + c), min(hi, -flo + c)
         return (lo, hi)
 
     def cmp(self, op, a, b):
@@ -164,6 +185,27 @@ class IntEnv:
         if not truth:
             op = {"Lt": "Ge", "Le": "Gt", "Gt": "Le", "Ge": "Lt", "Eq": "Ne", "Ne": "Eq"}[op]
         d = Lin.lift(a) - Lin.lift(b)
+        if len(d.terms) >= 2:
+            # relational fact on the normalised term part T:  sgn*T + c  op  0
+            key, sgn, c = self._norm(d)
+            flo, fhi = self.forms.get(key, (-INF, INF))
+            # bounds on v = sgn*T = d - c
+            if op == "Lt":
+                vlo, vhi = -INF, -c - 1
+            elif op == "Le":
+                vlo, vhi = -INF, -c
+            elif op == "Gt":
+                vlo, vhi = -c + 1, INF
+            elif op == "Ge":
+                vlo, vhi = -c, INF
+            elif op == "Eq":
+                vlo, vhi = -c, -c
+            else:
+                return
+            if sgn < 0:
+                vlo, vhi = -vhi, -vlo
+            self.forms[key] = (max(flo, vlo), min(fhi, vhi))
+            return
         if len(d.terms) != 1:
             return
         (s, k), = d.terms.items()
